@@ -212,7 +212,7 @@ _SWAP_OPS = {ast.NotEq: ast.Eq, ast.IsNot: ast.Is, ast.NotIn: ast.In, ast.Gt: as
 
 # method name -> (attribute walked by the outer loop, attribute walked by the inner loop) for generator methods of the tree
 # under analysis that are exactly `for a in self.X: for b in a.Y: yield b` (PageLayout.lines_iterator); filled by Repo._load
-# from the sources it is about to analyse, so a changed generator is simply not expanded (and differs from its reference)
+# from the sources it is about to analyse, so with a changed generator the nested loops are not written as calls of it
 SIMPLE_GENERATORS = {}
 
 
@@ -245,13 +245,10 @@ def scan_simple_generators(sources):
 
 
 def _expand_simple_generators(tree):
-    """`for t in obj.lines_iterator(): B` is `for r in obj.regions: for t in r.lines: B` (B without a `break` of its own); the
-    same inside comprehensions."""
-    def walker(it):
-        if isinstance(it, ast.Call) and isinstance(it.func, ast.Attribute) and it.func.attr in SIMPLE_GENERATORS and not it.args and not it.keywords \
-                and isinstance(it.func.value, (ast.Name, ast.Attribute)) and dotted(it.func.value):
-            return it.func.value, SIMPLE_GENERATORS[it.func.attr]
-        return None
+    """One form for walking a two-level structure: `for r in obj.regions: for t in r.lines: B` (r used for nothing else, B
+    without a `break` of its own) is `for t in obj.lines_iterator(): B`; the same inside comprehensions.  (The generator's
+    own definition is left alone.)"""
+    by_attrs = {v: k for k, v in SIMPLE_GENERATORS.items()}
 
     def own_break(body):
         for st in body:
@@ -270,33 +267,49 @@ def _expand_simple_generators(tree):
                     return True
         return False
 
-    def outer_name(target):
-        return '%s__outer' % (target.id if isinstance(target, ast.Name) else 'item')
+    def uses(name, nodes):
+        return any(isinstance(x, ast.Name) and x.id == name for n in nodes for x in ast.walk(n))
 
     class G(ast.NodeTransformer):
+        def visit_FunctionDef(self, n):
+            if n.name in SIMPLE_GENERATORS:
+                return n
+            self.generic_visit(n)
+            return n
+
         def visit_For(self, n):
             self.generic_visit(n)
-            w = walker(n.iter)
-            if w is None or n.orelse or own_break(n.body):
+            if n.orelse or len(n.body) != 1 or not isinstance(n.body[0], ast.For) or not isinstance(n.target, ast.Name):
                 return n
-            obj, (x_, y_) = w
-            o = outer_name(n.target)
-            inner = ast.For(target=n.target, iter=ast.Attribute(value=ast.Name(id=o, ctx=ast.Load()), attr=y_, ctx=ast.Load()), body=n.body, orelse=[])
-            outer = ast.For(target=ast.Name(id=o, ctx=ast.Store()), iter=ast.Attribute(value=obj, attr=x_, ctx=ast.Load()), body=[ast.copy_location(inner, n)], orelse=[])
-            return ast.fix_missing_locations(ast.copy_location(outer, n))
+            inner = n.body[0]
+            if inner.orelse or not (isinstance(n.iter, ast.Attribute) and isinstance(n.iter.value, (ast.Name, ast.Attribute)) and dotted(n.iter.value)):
+                return n
+            if not (isinstance(inner.iter, ast.Attribute) and isinstance(inner.iter.value, ast.Name) and inner.iter.value.id == n.target.id):
+                return n
+            name = by_attrs.get((n.iter.attr, inner.iter.attr))
+            if name is None or uses(n.target.id, inner.body) or uses(n.target.id, [inner.target]) or own_break(inner.body):
+                return n
+            call = ast.Call(func=ast.Attribute(value=n.iter.value, attr=name, ctx=ast.Load()), args=[], keywords=[])
+            new = ast.For(target=inner.target, iter=call, body=inner.body, orelse=[])
+            return ast.fix_missing_locations(ast.copy_location(new, n))
 
         def _comp(self, n):
             self.generic_visit(n)
-            gens = []
-            for g in n.generators:
-                w = walker(g.iter)
-                if w is None or g.is_async:
-                    gens.append(g)
+            gens = list(n.generators)
+            k = 0
+            while k + 1 < len(gens):
+                a, b = gens[k], gens[k + 1]
+                ok = isinstance(a.target, ast.Name) and not a.ifs and not a.is_async and not b.is_async and isinstance(a.iter, ast.Attribute) \
+                    and isinstance(a.iter.value, (ast.Name, ast.Attribute)) and dotted(a.iter.value) and isinstance(b.iter, ast.Attribute) \
+                    and isinstance(b.iter.value, ast.Name) and b.iter.value.id == a.target.id
+                name = by_attrs.get((a.iter.attr, b.iter.attr)) if ok else None
+                others = [x for g in gens[k + 2:] for x in [g.target, g.iter] + g.ifs] + [b.target] + b.ifs + \
+                    [getattr(n, 'elt', None), getattr(n, 'key', None), getattr(n, 'value', None)]
+                if name is not None and not uses(a.target.id, [x for x in others if x is not None]):
+                    call = ast.Call(func=ast.Attribute(value=a.iter.value, attr=name, ctx=ast.Load()), args=[], keywords=[])
+                    gens[k:k + 2] = [ast.comprehension(target=b.target, iter=call, ifs=b.ifs, is_async=0)]
                     continue
-                obj, (x_, y_) = w
-                o = outer_name(g.target)
-                gens.append(ast.comprehension(target=ast.Name(id=o, ctx=ast.Store()), iter=ast.Attribute(value=obj, attr=x_, ctx=ast.Load()), ifs=[], is_async=0))
-                gens.append(ast.comprehension(target=g.target, iter=ast.Attribute(value=ast.Name(id=o, ctx=ast.Load()), attr=y_, ctx=ast.Load()), ifs=g.ifs, is_async=0))
+                k += 1
             n.generators = gens
             return ast.fix_missing_locations(n)
         visit_ListComp = visit_SetComp = visit_GeneratorExp = visit_DictComp = _comp
@@ -1440,7 +1453,9 @@ def canon(expr, params=(), rename=None, consts=None):
                 return c(e.func.value.args[0])
             if fn in ('sorted', 'min', 'max', 'sum', 'any', 'all', 'tuple', 'set', 'enumerate', 'len', 'np.array', 'np.asarray') and e.args \
                     and isinstance(e.args[0], ast.Call) and isinstance(e.args[0].func, ast.Name) and e.args[0].func.id == 'list' \
-                    and len(e.args[0].args) == 1 and not e.args[0].keywords and fn not in ('len', 'np.array', 'np.asarray'):
+                    and len(e.args[0].args) == 1 and not e.args[0].keywords and (fn not in ('len', 'np.array', 'np.asarray') or (
+                        fn == 'len' and isinstance(e.args[0].args[0], ast.Call) and isinstance(e.args[0].args[0].func, ast.Attribute)
+                        and e.args[0].args[0].func.attr in SIMPLE_GENERATORS)):
                 # sorted(list(x), ..) is sorted(x, ..): the consumer walks its argument once anyway
                 e = ast.Call(func=e.func, args=[e.args[0].args[0]] + list(e.args[1:]), keywords=e.keywords)
             if fn in ('sorted', 'min', 'max', 'any', 'all', 'tuple', 'set', 'list', 'frozenset', 'enumerate', 'len', 'sum') and e.args \
@@ -1526,6 +1541,10 @@ def canon(expr, params=(), rename=None, consts=None):
             # the first extent of an array is its length
             if isinstance(e.value, ast.Attribute) and e.value.attr == 'shape' and isinstance(e.slice, ast.Constant) and e.slice.value == 0:
                 return ('call', ('fn', 'len'), (c(e.value.value),), ())
+            # the k-th element of list(<call>) in the index form of a walk is written without the list()
+            if isinstance(e.value, ast.Call) and dotted(e.value.func) == 'list' and len(e.value.args) == 1 and not e.value.keywords \
+                    and isinstance(e.value.args[0], ast.Call) and not isinstance(e.slice, ast.Slice):
+                return c(ast.Subscript(value=e.value.args[0], slice=e.slice, ctx=ast.Load()))
             # an element of a choice is the choice of the elements: (A if t else B)[k] is A[k] if t else B[k]
             if isinstance(e.value, ast.IfExp) and not isinstance(e.slice, ast.Slice):
                 v = e.value
